@@ -179,6 +179,22 @@ func c10Run(c *fw.Case, env *fw.Env) *fw.Obs {
 		before, had := out.refsBefore.vals[name]
 		after := out.refsAfter.vals[name]
 		remote := string(w.h.sums[pl.Remote])
+		if p.ShallowOther {
+			// the merged commit has no table here: whatever the relation, the branch must not end up on a commit whose
+			// table is not in the repository
+			o.Ev("merges_of_a_shallow_commit", 1)
+			if after != before {
+				if raw, ok := out.afterRecv["com/"+after]; ok {
+					if t := tableOfCommit(raw); t != "" {
+						if _, ok := out.afterRecv["tbl/"+t]; !ok {
+							o.Violate("branch-moved-to-commit-without-table/"+class, "%s went %x -> %x whose table %x is not in the repository (the merged commit was shallow); output %s", name, before, after, t, tailStr(out.out, 300))
+						}
+					}
+				}
+			}
+			o.Key("%s/shallow-other/%d", class, c.Seed%100000)
+			return o
+		}
 		switch {
 		case !had:
 			// new local branch created from the fetched commit
@@ -254,6 +270,14 @@ func descendsFrom(out *netOutcome, tip, anc string, w *netWorld) bool {
 	return false
 }
 
+// tableOfCommit reads the table sum out of an encoded commit ("table <16 bytes>" is its first line).
+func tableOfCommit(raw []byte) string {
+	if len(raw) >= 6+16 && string(raw[:6]) == "table " {
+		return string(raw[6 : 6+16])
+	}
+	return ""
+}
+
 func parseParents(raw []byte) []string {
 	var ps []string
 	rest := raw
@@ -298,6 +322,9 @@ func init() {
 			// move forward along its own history
 			for i, rel := range []string{"diverged", "remote-ahead", "diverged", "remote-behind", "diverged", "remote-ahead"} {
 				l.Add("merge", netParams{Op: "merge", N: 9, BaseRows: 4, Branches: 1, Rel: rel, Peel: 1 + i%2, FF: []string{"", "", "ff-only"}[i%3]}, int64(1081+i))
+			}
+			for i, rel := range []string{"remote-ahead", "remote-ahead", "diverged", "remote-ahead", "remote-behind", "remote-ahead"} {
+				l.Add("merge", netParams{Op: "merge", N: 8, BaseRows: 4, Branches: 1, Rel: rel, ShallowOther: true, FF: []string{"", "no-ff", "", "ff-only"}[i%4]}, int64(1101+i))
 			}
 			for i, rel := range []string{"remote-ahead", "diverged", "remote-behind", "diverged", "remote-ahead", "diverged"} {
 				l.Add("merge", netParams{Op: "merge", N: 8, BaseRows: 4, Branches: 1, Rel: rel, Shadow: true, FF: []string{"", "no-ff"}[i%2]}, int64(1071+i))
